@@ -208,9 +208,15 @@ fn main() {
                         env.push(*x as f64);
                     }
                     let base = sentinels.len() + extra;
+                    uiua::verif::set_frame_monitor(true);
+                    let _ = uiua::verif::take_frame_violations();
                     let res = catch(|| {
                         env.run_asm(asm.clone()).and_then(|_| env.call(&mainf)).map_err(|e| e.to_string())
                     });
+                    uiua::verif::set_frame_monitor(false);
+                    for v in uiua::verif::take_frame_violations().into_iter().take(2) {
+                        println!("{{\"violation\":\"frame-monitor\",\"src\":{},\"sig\":\"|{a}.{o}\",\"args\":{:?},\"what\":{}}}", jstr(&src), args, jstr(&v));
+                    }
                     match res {
                         Ok(Ok(())) => {
                             ok_runs += 1;
@@ -249,6 +255,45 @@ fn main() {
             }
             println!("{{\"summary\":true,\"functions\":{done},\"ok_runs\":{ok_runs},\"err_runs\":{err_runs}}}");
         }
-        _ => eprintln!("usage: c02 export|exec|frame N"),
+        "monitor" => {
+            // the frame monitor (hook) on real corpus programs: every execution of a function or operand
+            // with a signature, in programs that use arrays and every modifier the corpus uses
+            let mut srcs = corpus_chunks();
+            for i in (1..srcs.len()).rev() {
+                let j = r.below(i + 1);
+                srcs.swap(i, j);
+            }
+            let (mut ran, mut ok_runs, mut err_runs, mut viol) = (0usize, 0usize, 0usize, 0usize);
+            for src in srcs.into_iter().take(n) {
+                if src.contains("&sl") || src.contains("&ast") || src.contains("&tcp") || src.contains("&ffi") {
+                    continue;
+                }
+                let Ok(asm) = compile(&src, uiua::PreEvalMode::Lazy) else { continue };
+                ran += 1;
+                let mut env = uiua::Uiua::with_safe_sys().with_execution_limit(std::time::Duration::from_secs(2));
+                uiua::verif::set_frame_monitor(true);
+                let _ = uiua::verif::take_frame_violations();
+                let res = catch(|| env.run_asm(asm.clone()).map_err(|e| e.to_string()));
+                uiua::verif::set_frame_monitor(false);
+                let d = uiua::verif::depths(&env);
+                match res {
+                    Ok(Ok(())) => {
+                        ok_runs += 1;
+                        if d[1] != 0 || d[2] != 1 || d[5] != 0 || d[6] != 0 || d[7] != 0 {
+                            viol += 1;
+                            println!("{{\"violation\":\"frame\",\"src\":{},\"sig\":\"root\",\"args\":[],\"what\":{}}}", jstr(&src), jstr(&format!("hidden residue at the end of a successful program {d:?}")));
+                        }
+                    }
+                    Ok(Err(_)) => err_runs += 1,
+                    Err(p) => println!("{{\"panic\":{},\"src\":{}}}", jstr(&p), jstr(&src)),
+                }
+                for v in uiua::verif::take_frame_violations().into_iter().take(2) {
+                    viol += 1;
+                    println!("{{\"violation\":\"frame-monitor\",\"src\":{},\"sig\":\"operand\",\"args\":[],\"what\":{}}}", jstr(&src), jstr(&v));
+                }
+            }
+            println!("{{\"summary\":true,\"monitored_programs\":{ran},\"ok_runs\":{ok_runs},\"err_runs\":{err_runs},\"violations\":{viol}}}");
+        }
+        _ => eprintln!("usage: c02 export|exec|frame|monitor N"),
     }
 }
